@@ -324,6 +324,15 @@ func c14negCases(st *Stats) []Case {
 		Ops: [][]string{happy(false, true, true).op()}})
 	n++
 	st.Inc("session_config_reused")
+	// a bearer token instead of a password (X-OAUTH2): the payload is NUL + local part + NUL + token - not the bare JID -
+	// on the first connection and on a reconnection
+	for _, insecure := range bools {
+		cases = append(cases, Case{ID: fmt.Sprintf("neg%d", n),
+			Variant: []string{"neg", "insecure=" + strconv.FormatBool(insecure), "sm=false", "cred=token"},
+			Ops:     [][]string{happy(true, false, false).op(), happy(true, false, false).op()}})
+		n++
+		st.Inc("session_token_credential")
+	}
 	// traffic logging on: what reaches the server is still exactly the payload (the stream logger sits between the
 	// transport and the socket - before and after STARTTLS)
 	for _, insecure := range bools {
